@@ -8,10 +8,10 @@ const vm = require('vm');
 const fs = require('fs');
 const [mode, origFile, rewFile, driver] = process.argv.slice(2);
 function show(v) { try { return JSON.stringify(v, (k, x) => (typeof x === 'function' ? 'fn' : typeof x === 'bigint' ? String(x) : x)); } catch (e) { return String(v); } }
-function run(code, withHooks) {
+async function run(code, withHooks) {
   const log = [];
   const bad = [];
-  const ctx = { __log: (x) => { log.push(String(x)); return x; } };
+  const ctx = { __log: (x) => { log.push(String(x)); return x; }, setTimeout, Promise };
   if (withHooks) {
     ctx._ddiast = new Proxy({}, { get: (_t, name) => (res, ...rest) => {
       if (mode !== 'hooks') return res;   // plain pass-through: recomputing would re-run user code (valueOf, custom methods)
@@ -29,15 +29,26 @@ function run(code, withHooks) {
   }
   vm.createContext(ctx);
   let out;
-  try { vm.runInContext(code, ctx, { timeout: 2000 }); out = 'ok ' + show(vm.runInContext(driver, ctx, { timeout: 2000 })); }
-  catch (e) { out = 'throw ' + (e && e.constructor ? e.constructor.name : typeof e); }
+  try {
+    vm.runInContext(code, ctx, { timeout: 2000 });
+    let v = vm.runInContext(driver, ctx, { timeout: 2000 });
+    if (v && typeof v.then === 'function') {
+      // a promise: settle it (bounded) and let pending microtasks / timers of the program run
+      log.push('<promise returned>');
+      v = await Promise.race([v, new Promise((_, rej) => setTimeout(() => rej(new Error('oracle timeout')), 1500))]);
+      await new Promise((res) => setTimeout(res, 20));
+    }
+    out = 'ok ' + show(v);
+  } catch (e) { out = 'throw ' + (e && e.constructor ? e.constructor.name : typeof e); }
   return { out, log, bad };
 }
-const o = run(fs.readFileSync(origFile, 'utf8'), false);
-const r = run(fs.readFileSync(rewFile, 'utf8'), true);
+(async () => {
+const o = await run(fs.readFileSync(origFile, 'utf8'), false);
+const r = await run(fs.readFileSync(rewFile, 'utf8'), true);
 if (mode === 'hooks') {
   console.log(r.bad.length ? 'HOOK-ARGS-WRONG ' + r.bad.join(' | ') : 'HOOK-ARGS-OK');
 } else {
   const same = o.out === r.out && show(o.log) === show(r.log);
   console.log((same ? 'EXEC-SAME ' : 'EXEC-DIFFERS ') + 'original: ' + o.out + ' log=' + show(o.log) + ' rewritten: ' + r.out + ' log=' + show(r.log));
 }
+})();
